@@ -93,11 +93,19 @@ def harness_c08(tier, seed):
     # tournaments that are not double round-robins (all bundled instances have two rounds): one and three rounds
     for rounds_ in (1, 3):
         try:
-            insts.append(Instance(f"asym4r{rounds_}", asym, ["a", "b", "c", "d"], rounds_, 1, 3, 1, 3, 1, 3))
+            insts.append(Instance("asym4", asym, ["a", "b", "c", "d"], rounds_, 1, 3, 1, 3, 1, 3))
         except Exception as ex:
             viol.append(("generated-instance/raises", {"rounds": rounds_}, repr(ex)))
+    # small one-way distances: the matrix is stored in the narrowest integer type (int8 here), while a team with all
+    # days off collects 3 x (2 * 25 + 1) = 153 in penalties - sums are not bounded by what the matrix type holds
+    small = np.array([[0, 25, 1, 1], [1, 0, 1, 1], [1, 1, 0, 1], [1, 1, 1, 0]], np.int64)
+    try:
+        insts.append(Instance("asym4", small, ["a", "b", "c", "d"], 1, 1, 3, 1, 3, 1, 3))
+        insts.append(Instance("asym4", small * 5, ["a", "b", "c", "d"], 2, 1, 3, 1, 3, 1, 6))
+    except Exception as ex:
+        viol.append(("generated-instance/raises", {"matrix": small.tolist()}, repr(ex)))
     for k_plan in range(nplans):
-        inst = insts[-1 - (k_plan % 2)] if k_plan < 12 else rng.choice(insts)
+        inst = insts[-1 - (k_plan % 4)] if k_plan < 24 else rng.choice(insts)
         n = inst.n_cities
         days = (n - 1) * inst.rounds
         obj = GamePlanLength(inst)
@@ -281,6 +289,19 @@ def harness_c15(tier, seed):
                 viol.append(("decode-vs-earliest-slot-reference/many-teams", {"n": n, "rounds": 1, "shuffled": shuffled, "seed": seed},
                              f"first difference on day {dd}, team {tt}: got {int(y[dd, tt])}, reference {int(ref[dd, tt])}"))
                 break
+    # ---- day counts around machine-word sizes (31..33, 63..65 days), two teams and more
+    for (n, rounds, days) in [(2, d_, d_) for d_ in (31, 32, 33, 63, 64, 65)] + [(5, 16, 64), (9, 8, 64), (17, 4, 64), (3, 11, 32)]:
+        sp = search_space_for_n_and_rounds(n, rounds)
+        x = [int(v) for v in sp.blueprint]
+        rng.shuffle(x)
+        y = np.full((days, n), 99, np.int8)
+        map_games(np.array(x, dtype=sp.dtype), y)
+        ref = ref_fast(x, days, n)
+        evals += 1
+        distinct += 1
+        if not np.array_equal(y, ref):
+            viol.append(("decode-vs-earliest-slot-reference/day-count-boundary", {"n": n, "rounds": rounds, "days": days, "x": x[:80]},
+                         f"{int((y > 0).sum())} games scheduled, reference schedules {int((ref > 0).sum())}"))
     seen = set()
     viol = [v for v in viol if not (v[0] in seen or seen.add(v[0]))]
     return {"name": "ttp_game_encoding", "evaluations": evals, "distinct_nontrivial": distinct,
